@@ -23,9 +23,10 @@ NEXTS = {'all': ALL, 'd': ['digest'], 'v': ['verify']}
 
 S2V_VALID = ['len(self._cache) == 16', '0 <= self._n_updates', 'self._n_updates <= 127']
 STEP = 'spec.aead2.s2v_step(self._key, old(self._cache), old(self._last_string))'
-DERIVE = 'spec.aead2.cmac(self._key, spec.aead2.s2v_final(self._cache, self._last_string))'
+DERIVE = 'spec.aead2.s2v_derive(self._key, self._cache, self._last_string, self._n_updates == 127)'
 
 KDF = 'self._kdf.'
+S2V_OPQ = ['spec.aead2.s2v_step', 'spec.aead2.s2v_final', 'spec.aead2.s2v_dbl']
 SIV_VALID = ['self.block_size == 16', 'len(self._subkey_cipher) == len(self._kdf._key)',
              '("encrypt" in self._next or "decrypt" in self._next or "update" in self._next) ==> self._mac_tag is None',
              'self._mac_tag is not None ==> len(self._mac_tag) == 16',
@@ -124,27 +125,29 @@ def registry(nxt='all', nonce=True, init=False, empty_vector_clause=False, no_me
     # encrypt / decrypt: never permitted for SIV
     for nm, arg in (('encrypt', 'plaintext'), ('decrypt', 'ciphertext')):
         reg.add(Contract(V + '.' + nm, params={arg: 'bytes'}, raises={'TypeError': ('iff', '1 == 1')}, unchanged_on_raise=True, modifies=[]))
-    # digest / verify on the S2V state as it is (see the NOT PROVED / finding note at the end of this file about a missing message)
-    STATE_TAG = 'spec.aead2.cmac(%s, spec.aead2.s2v_final(%%sself._kdf._cache%%s, %%sself._kdf._last_string%%s))' % K1
+    # digest / verify: the cached tag, or (no message was processed) the tag of the empty message V = S2V(K1; AD..., [nonce], "")
+    NOMSG = TAG % 'b""'
+    enough = 'self._mac_tag is None ==> self._kdf._n_updates >= ' + str(need)
     dig_ens = {'next': 'self._next == ["digest"]', 'result': 'result == self._mac_tag',
-               'tag': 'self._mac_tag == (old(self._mac_tag) if old(self._mac_tag) is not None else %s)' % (STATE_TAG % ('old(', ')', 'old(', ')')),
+               'tag': 'self._mac_tag == (old(self._mac_tag) if old(self._mac_tag) is not None else ' + NOMSG + ')',
                'valid': 'valid(self)'}
     if no_message_clause:
         # C10: a permitted sequence yields the tag of the one-shot computation: digest() right after the update()s is the one-shot
-        # computation on the empty message, V = S2V(K1; AD_1..AD_n[, nonce], "")   -- FAILS on the current tree, see FINDING F2 below
-        dig_ens = {'one_shot_tag': '("update" in old(self._next)) ==> result == %s' % (TAG % 'b""')}
-    reg.add(Contract(V + '.digest', params={}, raises={'TypeError': ('iff', '"digest" not in self._next')}, unchanged_on_raise=True,
-                     ensures=dig_ens,
-                     modifies={'self._mac_tag': 'bytes', 'self._next': nxt_t(['digest'])}, result='bytes', opaque=['spec.aead2.s2v_step', 'spec.aead2.s2v_final', 'spec.aead2.s2v_dbl']))
-    reg.add(Contract(V + '.verify', params={'received_mac_tag': 'buffer'},
+        # computation on the empty message (was FINDING F2, fixed in /repo 679a9782)
+        dig_ens = {'one_shot_tag': '("update" in old(self._next)) ==> result == ' + NOMSG}
+    DV_MOD = dict(KDF_MOD, **{'self._mac_tag': 'bytes'})
+    reg.add(Contract(V + '.digest', params={}, requires=[enough],
+                     raises={'TypeError': ('iff', '"digest" not in self._next')}, unchanged_on_raise=True, ensures=dig_ens,
+                     modifies=dict(DV_MOD, **{'self._next': nxt_t(['digest'])}), result='bytes', opaque=S2V_OPQ))
+    reg.add(Contract(V + '.verify', params={'received_mac_tag': 'buffer'}, requires=[enough],
                      raises={'TypeError': ('iff', '"verify" not in self._next'),
-                             'ValueError': ('iff', '"verify" in self._next and received_mac_tag != (self._mac_tag if self._mac_tag is not None else %s)'
-                                            % (STATE_TAG % ('', '', '', '')))},
+                             'ValueError': ('iff', '"verify" in self._next and received_mac_tag != (self._mac_tag if self._mac_tag is not None else '
+                                            + (TAG_IN % 'b""') + ')')},
                      unchanged_on_raise=['TypeError'],
                      ensures={'next': 'self._next == ["verify"]', 'accepted': 'received_mac_tag == self._mac_tag',
-                              'tag': 'self._mac_tag == (old(self._mac_tag) if old(self._mac_tag) is not None else %s)' % (STATE_TAG % ('old(', ')', 'old(', ')')),
+                              'tag': 'self._mac_tag == (old(self._mac_tag) if old(self._mac_tag) is not None else ' + NOMSG + ')',
                               'valid': 'valid(self)'},
-                     modifies={'self._mac_tag': 'bytes', 'self._next': nxt_t(['verify'])}, opaque=['spec.aead2.s2v_step', 'spec.aead2.s2v_final', 'spec.aead2.s2v_dbl']))
+                     modifies=dict(DV_MOD, **{'self._next': nxt_t(['verify'])}), opaque=S2V_OPQ))
     # encrypt_and_digest: V = S2V(K1; AD..., [nonce], P); C = P xor CTR_K2(V & mask)
     reg.add(Contract(V + '.encrypt_and_digest', params={'plaintext': 'bytes', 'output': 'none'},
                      requires=['self._kdf._n_updates >= %d' % need],
@@ -219,8 +222,8 @@ def units(prop, tier):
     return us
 
 
-# FINDING F1 (C12, s2v.derive.empty_vector): RFC 5297 2.4 defines S2V of the empty vector as AES-CMAC(K, <one>); _S2V.derive() without any
+# FINDING F1, fixed (C12, s2v.derive.empty_vector): RFC 5297 2.4 defines S2V of the empty vector as AES-CMAC(K, <one>); _S2V.derive() without any
 #   update() returns AES-CMAC(K, <zero>).  Replayed natively: _S2V.new(bytes(range(16)), AES).derive() == CMAC(K, bytes(16)).
-# FINDING F2 (C10, siv.digest.no_message): SivMode.digest()/verify() without a message derive S2V over the AD components alone (last AD component
+# FINDING F2, fixed (C10, siv.digest.no_message): SivMode.digest()/verify() without a message derive S2V over the AD components alone (last AD component
 #   in the place of the plaintext, nonce not absorbed): update(b'hdr'); digest() != update(b'hdr'); encrypt_and_digest(b'')[1].
-#   The proved `tag` clause of digest()/verify() states what the code does (S2V of the state as it is); the one-shot clause is kept in the unit above.
+#   Both were fixed in /repo (53dafb7a, 679a9782); the clauses stay registered as their own units.
